@@ -148,6 +148,47 @@ def native_io(tier='quick', seed=0):
                             fails.append({'call': f'read back window offset={off} length={ln} of a {total}-bit file', 'python': "FAILS = True"})
                     except Exception as e:
                         fails.append({'call': f'read back window offset={off} length={ln}', 'observed': type(e).__name__, 'python': "FAILS = True"})
+        # bytes= from every kind of buffer object, with and without a window: always the window of the *bytes* of the buffer
+        import array as _array
+        for _ in range(300 if tier == 'quick' else 5000):
+            nb = rng.choice([2, 4, 8, 12, 16])
+            raw = bytes(rng.randrange(256) for _ in range(nb))
+            kind = rng.choice(['bytes', 'bytearray', 'memoryview', 'memoryview H', 'memoryview I', 'memoryview 2d', 'array H', 'memoryview slice'])
+            if kind == 'bytes':
+                src = raw
+            elif kind == 'bytearray':
+                src = bytearray(raw)
+            elif kind == 'memoryview':
+                src = memoryview(raw)
+            elif kind == 'memoryview H':
+                src = memoryview(_array.array('H', raw))
+            elif kind == 'memoryview I':
+                src = memoryview(_array.array('I', raw)) if nb % 4 == 0 else memoryview(raw)
+            elif kind == 'memoryview 2d':
+                src = memoryview(raw).cast('B', (2, nb // 2))
+            elif kind == 'array H':
+                src = _array.array('H', raw)
+            else:
+                src = memoryview(b'\x00' + raw + b'\x00')[1:-1]
+            total = 8 * nb
+            off = rng.choice([None, 0, 1, 8, rng.randint(0, total)])
+            ln = rng.choice([None, 0, rng.randint(0, total - (off or 0))])
+            bits_all = ''.join(format(x, '08b') for x in raw)
+            want = bits_all[(off or 0):(off or 0) + ln] if ln is not None else bits_all[(off or 0):]
+            for cls in (Bits, BitArray, ConstBitStream):
+                evals += 1
+                kw = {k: v for k, v in (('offset', off), ('length', ln)) if v is not None}
+                try:
+                    got = cls(bytes=src, **kw).bin
+                    ok = got == want
+                except TypeError:
+                    ok = kind == 'array H'          # an array.array is not a bytes-like initialiser for bytes=
+                except Exception as e:
+                    ok = False
+                    got = type(e).__name__
+                if not ok:
+                    fails.append({'call': f"{cls.__name__}(bytes=<{kind} of {raw.hex()}>, {kw})", 'observed': str(got)[:60], 'expected': want[:60], 'python': "FAILS = True"})
+                    break
         # Array
         for _ in range(100):
             evals += 1
